@@ -135,6 +135,8 @@ class C02(Prop):
         """the REAL global recorder end to end (metrics::set_global_recorder + with_recorder), one
         script per process: sequential installs / emissions on the main thread, on fresh threads and
         from destructors running while a thread unwinds from a panic (U / D: the context must not matter),
+        local scopes on the main thread and on one persistent worker (L / G / l: inside, the local recorder
+        wins; afterwards that thread follows the global recorder like any other, e),
         and a parallel phase (emitters vs further losing installs).  Judged by the property: the
         first install wins, every other attempt hands its own recorder back intact, emissions before
         it go to the no-op recorder, every emission after it reaches the winner, on every thread."""
@@ -142,15 +144,18 @@ class C02(Prop):
         rng = ctx["rng"].fork()
         n = 16 if ctx["tier"] == "quick" else 150
         scripts = [["E", "I1", "E", "I2", "E", "F", "J3", "F", "E", "P3"], ["F", "J1", "F", "E", "I2", "E", "P2", "I3", "E"],
-                   ["D", "U1", "E", "D", "I2", "F", "U3", "E", "P2"]]
+                   ["D", "U1", "E", "D", "I2", "F", "U3", "E", "P2"],
+                   ["L50", "l51", "E", "e", "I1", "E", "e", "G52", "l53", "E", "e", "F"]]
         for _ in range(n - len(scripts)):
             ops, r = [], 1
             for _ in range(rng.range(4, 12)):
                 k = rng.below(10)
                 if k < 3:
                     ops.append("%s%d" % (rng.pick("IJU"), r)); r += 1
+                elif k < 7:
+                    ops.append(rng.pick("EFDe"))
                 elif k < 9:
-                    ops.append(rng.pick("EFD"))
+                    ops.append("%s%d" % (rng.pick("LGl"), 50 + len(ops)))
                 elif any(o[0] in "IJU" for o in ops):
                     ops.append("P%d" % rng.range(2, 4))     # the parallel phase's extra installs must be losers
                 else:
@@ -173,7 +178,10 @@ class C02(Prop):
                         winner = op[1:]
                     elif t != "X" + op[1:]:
                         problem = "installation %s after a successful one returned %s (must fail and hand its own recorder back intact)" % (op, t)
-                elif op[0] in "EFD":
+                elif op[0] in "LGl":
+                    if t != "V" + op[1:]:
+                        problem = "emission inside a local scope (%s) was dispatched to %s, expected the local recorder %s" % (op, t, op[1:])
+                elif op[0] in "EFDe":
                     want = "N" if winner is None else "V" + winner
                     if t != want:
                         problem = "emission (%s) was dispatched to %s, expected %s" % (op, t, want)
